@@ -1,14 +1,25 @@
 """C36 — idle runs are released after the idle timeout and reloaded on demand."""
 from __future__ import annotations
 
-from ..runner import Env, Outcome, Violation
+import json
+import random
+
+from ..runner import Divergence, Driver, Env, Outcome, Violation
+from ..server import dbos_timer as DT
 from ..server import idle_check as IC
 from ..server import lifecycle_db as LDB
 from ..server import lifecycle_props as LP
 
 THEOREMS = ["C36_source_shape", "C36_release_after_timeout", "C36_never_released_early", "C36_early_release_window_witness",
             "C36_reload_on_send", "C36_send_to_active_run", "C36_reload_state_is_replay", "C36_no_release_while_sending",
-            "C36_refuted_dbos_never_released", "C36_dbos_release_resume_partial", "C36_dbos_release_not_abandoned"]
+            "C36_refuted_dbos_never_released", "C36_dbos_release_resume_partial", "C36_dbos_release_not_abandoned",
+            # every history, in-process stack (WfProofs/LifecycleIdle.lean)
+            "C36_released_run_marked_idle", "C36_reloads_match_releases", "C36_reload_from_all_persisted", "C36_release_when_timers_quiescent",
+            # DBOS stack: when a release is attempted (M7 (C), WfModel/DbosTimer.lean)
+            "C36_dbos_timer_source_shape", "C36_dbos_timer_discipline", "C36_dbos_release_attempt_after_timeout", "C36_dbos_timer_cover",
+            "C36_dbos_no_timer_outlives_its_workflow",
+            # DBOS stack: `released` row vs. workflow in memory (machine (B), WfProofs/LifecycleCalm.lean)
+            "C36_dbos_released_means_unloaded_refuted", "C36_dbos_released_means_unloaded_partial"]
 LEAN_TARGETS = ["WfProps.C36"]
 EXPLANATION = (
     "Lean (same model M7 as C26): for every schedule — every release was decided on an idle_since at least idle_timeout old, idle_since holds the "
@@ -29,6 +40,27 @@ EXPLANATION = (
     "positions, releaser task ended early), and the monitors: a committed begin_release is followed by TickIdleRelease and complete_release within "
     "the case's own latencies, an idle undisturbed run is out of memory after idle_timeout + the longest release, a released run is marked idle, "
     "the next send reloads exactly once and the run finishes with everything it consumed. "
+    "Every history, in-process stack: a run that is out of memory is marked idle (idle_since = the last announcement) in EVERY reachable state "
+    "(C36_released_run_marked_idle); loops started = releases + [loaded]: each release is answered by at most one reload, no reload without a release "
+    "(C36_reloads_match_releases); whatever the interleaving, an action that starts a loop starts it from the entire tick log as it is at that instant, "
+    "a live loop's rebuilt-from list is a prefix of the log, the log only grows (C36_reload_from_all_persisted); an idle-marked run whose still-sleeping "
+    "release tasks were all armed for earlier announcements IS out of memory (C36_release_when_timers_quiescent: liveness as safety, via the cover invariant). "
+    "DBOS stack, when a release is attempted (model M7 (C) of the deferred-release timer bookkeeping, `_schedule_/_cancel_deferred_release`, `_deferred_release`): "
+    "for every sequence of announcements, received ticks, resumes, expiries — at most one timer sleeps, it is the registered one, armed by the last announcement "
+    "with no tick since; what is registered is never inside a release, so the pop is never foreign and no cancel reaches a running release "
+    "(C36_dbos_timer_discipline); every attempt (begin_release) comes >= idle_timeout after the LAST announcement with no tick/resume since, unconditionally "
+    "(C36_dbos_release_attempt_after_timeout); an announced-idle undisturbed run always has its attempt ahead at exactly announcement + idle_timeout "
+    "(C36_dbos_timer_cover); any received tick — the TickIdleRelease a workflow exits on included — or resume leaves no timer asleep "
+    "(C36_dbos_no_timer_outlives_its_workflow); protocol machine (B): `row = released => no workflow executing` is REFUTED at full strength by two model "
+    "witnesses (a release that begins during a resume; a live releaser slower than the crash timeout whose late complete_release closes another "
+    "releaser's release — complete_release is guarded by the row's state, not its holder; both replayed as CAS sequences on the real SQLite lock) and PROVED "
+    "for every schedule in which a release begins only while the workflow is up and no `releasing` row is taken over, together with: from every such "
+    "reachable released state the next sender reloads at once, exactly once, with its event folded in (C36_dbos_released_means_unloaded_refuted / _partial); "
+    "the bodies and call sites the actions are cut along are re-extracted (C36_dbos_timer_source_shape). Tie: the real decorator's "
+    "timer code runs op by op (harness/server/dbos_timer.py: real internal adapter + decorator over stub inner adapter / lock / store, several runs, virtual time, "
+    "release latencies) and after each observed action (idle, tick, resume, fire, finish) the registry, every timer task's state and the end of its sleep read from "
+    "the loop's timer heap, and the attempts are compared with the compiled model; monitors on the log alone: attempt early / with a tick since / without "
+    "announcement / late, two sleepers, registered task not asleep, running release cancelled, idle run without attempt, won CAS not carried through, cross-run effect. "
     "Tie and search as C26 (same observation stream); C36's monitors: release timing against the stream's own idle announcements, release "
     "liveness (announced idle, undisturbed for idle_timeout => released exactly then, handler marked idle), reload exactly once, state after "
     "release / reload, lock sections, final result equals the run without idle release."
@@ -38,6 +70,10 @@ LEVEL_TEXT = ("proof (Lean 4) over the lifecycle model M7 (release after the tim
               "half: dbos/asyncpg/sqlalchemy are absent (stand-in inner runtime, PostgreSQL lock extracted, not run); the DBOS clause itself is "
               "refuted on the tree (no lifecycle row is ever created)")
 ASSUMPTIONS = LP.COMMON_ASSUMPTIONS + [
+    "M7 (C) (DBOS timer): `task.cancel()` of a sleeping timer task takes effect before the task runs again, whatever its due time (asyncio semantics; observed on the "
+    "real loop, incl. a tick at the very instant the sleep ends); the attempt is the entry into _release_idle_handler (the pop and the begin_release call are one "
+    "await-free section when the lifecycle-lock factory is synchronous, as in the shipped wiring); what happens to a tick that arrives AFTER the attempt began is "
+    "machine (B)'s business (C26: tick_arrived_during_release); a timer task cancelled before its first step never sleeps (the end of its sleep is then not observable)",
     "C36_release_after_timeout(b) runs the pending release task from a state with the lock free and no send in between; fairness of the asyncio scheduler "
     "(the timer task eventually runs) is not modelled — the monitor checks on the real stack that the release happens at exactly announcement + idle_timeout",
     "DBOS half under latency: what DBOS adds to the decorator is taken to be latency (and suspension of the calling task) on the lifecycle statements and on "
@@ -47,6 +83,10 @@ ASSUMPTIONS = LP.COMMON_ASSUMPTIONS + [
     "the monitor compares the final result with the uninterrupted run",
 ]
 TRUSTED_EXTRA = LP.TRUSTED_EXTRA + [
+    "harness/server/dbos_timer.py: stub inner adapter / inner runtime / lifecycle lock / store under the real DBOSIdleReleaseDecorator and its real internal adapter; the "
+    "observation of timer tasks (a `_spawn_task` override that only records, asyncio task state, the loop's timer heap for the end of a sleep); `resume` is the direct call "
+    "`_cancel_deferred_release(run_id)` (first statement of `_do_resume`, re-extracted)",
+    "harness/gen/dbos_timer.py (AST extraction into WfModel/GenDbosTimer.lean)",
     "harness/server/dbos_gated.py: the stand-in engine under DBOSIdleReleaseDecorator (BasicRuntime; ticks delivered by run id after a virtual-time latency, "
     "as DBOS.send is; DBOS.retrieve_workflow_async / delete_workflow_async emulated by hooks), the latency wrapper around the real SqliteRunLifecycleLock, the "
     "task bookkeeping that attributes lock calls to releasers / senders, the lifecycle row inserted by the harness",
@@ -88,14 +128,150 @@ def _dbos_never_released(out: Outcome) -> None:
                                         {"kind": "dbos_standin", "create_row": True}))
 
 
+ROW_WITNESSES = [
+    # the lock-level projection of C36.lateReleaseActs / C36.supersededCompleteActs (WfProps/C36.lean): ordinary CAS sequences for the real lock
+    ("late_release", [("create", 0), ("begin", 0), ("complete", 0), ("resume", 120000), ("begin", 0), ("complete", 0)],
+     ["None", "True", "None", "released", "True", "None"]),
+    ("superseded_complete", [("create", 0), ("begin", 0), ("sleep", 120001), ("resume", 120000), ("begin", 0), ("complete", 0)],
+     ["None", "True", "released", "True", "None"]),
+]
+
+
+def _row_witnesses(out: Outcome) -> None:
+    """C36_dbos_released_means_unloaded_refuted at the level of the real SqliteRunLifecycleLock: both witness schedules are CAS sequences the
+    lock accepts, ending in `released` (the second: complete_release by a releaser whose release had been taken over closes the release of
+    another one — the statement is guarded by the row's state only); answers and rows compared with the row model"""
+    import asyncio
+    import os
+
+    from ..runner import diff_streams
+    from ..vloop import run_virtual
+
+    for name, items, want in ROW_WITNESSES:
+        LC = LDB._patch_clocks()
+        db = LDB.make_db()
+        ops: list[str] = []
+        impl: list[str] = []
+        answers: list[str] = []
+
+        async def main(loop, items=items, db=db, ops=ops, impl=impl, answers=answers, LC=LC):  # noqa: ANN001
+            lock = LC.SqliteRunLifecycleLock(db)
+            rid = "run-0"
+            for kind, arg in items:
+                now = LDB.ms(loop.time())
+                if kind == "sleep":
+                    await asyncio.sleep(arg / 1000.0)
+                    continue
+                if kind == "create":
+                    res = await lock.create(rid)
+                    ops.append(f"db|0|create|{now}")
+                elif kind == "begin":
+                    res = await lock.begin_release(rid)
+                    ops.append(f"db|0|begin|{now}")
+                elif kind == "complete":
+                    res = await lock.complete_release(rid)
+                    ops.append(f"db|0|complete|{now}")
+                else:
+                    res = await lock.try_begin_resume(rid, crash_timeout_seconds=arg / 1000.0)
+                    ops.append(f"db|0|resume|{now}|{arg}")
+                answers.append(LDB.show_result(res))
+                impl.append(f"{LDB.show_result(res)} {LDB.read_row(db, rid)}")
+
+        try:
+            run_virtual(main, start=LDB.T0)
+        finally:
+            for suf in ("", "-wal", "-shm"):
+                try:
+                    os.unlink(db + suf)
+                except OSError:
+                    pass
+        m = Driver("lifecycle").run(ops)
+        d = diff_streams("lifecycle-row", ops, m, impl, context={"row_witness": name})
+        if d is not None and not out.divergences:
+            out.divergences.append(d)
+        out.evaluations += len(ops)
+        out.count(f"row witness {name}: final {impl[-1].split(' ')[-1].split('@')[0] if impl else '?'}")
+        if answers != want or not impl or not impl[-1].split(" ")[-1].startswith("row=released@"):
+            out.notes.append(f"row witness {name}: the real lock answered {answers}, final {impl[-1:] or '-'} (recorded: {want}, final released): "
+                             f"the lock-level half of C36_dbos_released_means_unloaded_refuted no longer replays")
+
+
+TIMER_MALFORMED = [("reset", "ok"), ("init|0", "bad-op"), ("idle|0", "no-run"), ("init|0|200", "ok"), ("fire|0|0", "disabled"), ("finish|0|3", "disabled"),
+                   ("idle|x", "bad-op"), ("adv|-3", "bad-op"), ("", "bad-op"), ("fire|0", "bad-op"), ("tick|0", "ok"), ("resume|7", "no-run")]
+
+
+def run_dbos_timer(env: Env, out: Outcome, n_cases: int) -> None:
+    """DBOS stack, when a release is attempted: the real decorator's timer bookkeeping vs M7 (C), op by op, + its monitors"""
+    rng = random.Random(env.rng.randrange(1 << 30))
+    got = Driver("dbostimer").run([o for o, _ in TIMER_MALFORMED])
+    out.evaluations += len(TIMER_MALFORMED)
+    out.count("timer: malformed ops", len(TIMER_MALFORMED))
+    for k, ((op, exp), g) in enumerate(zip(TIMER_MALFORMED, got)):
+        if g.split(" ")[0] != exp and not out.divergences:
+            out.divergences.append(Divergence("dbostimer", k, op, g, exp, {"stream": "malformed"}))
+
+    def take(results: list[dict], tag: str) -> None:
+        for r in results:
+            o = r["run"]
+            out.evaluations += len(o["ops"])
+            out.disagreements_checked += len(o["ops"])
+            out.traces_validated += 1
+            out.count(f"timer:{tag}")
+            out.count(f"timer: runs per case = {len(r['case']['taus'])}")
+            for op in o["ops"]:
+                out.count("top:" + op.split("|")[0])
+            ev = o["events"]
+            n_att = sum(1 for e in ev if e["ev"] == "attempt")
+            out.count("timer: release attempts", n_att)
+            out.count("timer: attempts that won the CAS", sum(1 for e in ev if e["ev"] == "attempt" and e["win"]))
+            out.count("timer: timer tasks cancelled while asleep", sum(f["facts"]["states"].count("cancelled") for f in (o.get("final") or {}).get("runs", [])))
+            out.count("timer: sleeps never observed (task cancelled before its first step)", o.get("unobserved_sleeps", 0))
+            if any(e["ev"] in ("tick", "idle", "resume") and any(a["ev"] == "attempt" and a["run"] == e["run"] and a["t"] <= e["t"] < a["t"] + a["lat"] for a in ev) for e in ev):
+                out.count("timer: tick / announcement / resume while a release of the run was inside begin_release")
+            if any(e["ev"] == "tick" and any(a["ev"] == "attempt" and a["run"] == e["run"] and a["t"] == e["t"] for a in ev) for e in ev) or \
+                    any(e["ev"] == "tick" and any(i["ev"] == "idle" and i["run"] == e["run"] and i["t"] + r["case"]["taus"][e["run"]] == e["t"] for i in ev) for e in ev):
+                out.count("timer: tick at the very instant the sleep ends")
+            if n_att and any(e["ev"] == "tick" for e in ev):
+                out.nontrivial(json.dumps(r["case"], sort_keys=True))
+            out.sample({"dbos_timer": r["case"], "ops": o["ops"][:30]}, cap=2)
+            if r["divergence"] is not None and not out.divergences:
+                out.divergences.append(r["divergence"])
+            if o["errors"]:
+                out.notes.append(f"dbos-timer {tag}: {o['errors'][:3]} in {json.dumps(r['case'])}")
+            seen = set()
+            for sig, what in r["findings"]:
+                if sig not in seen:
+                    seen.add(sig)
+                    out.violations.append(Violation(sig, what, {"kind": "dbos_timer", "case": r["case"]}))
+
+    if env.replay is not None:
+        payload = env.replay.get("payload", {})
+        c = payload.get("case") or {}
+        if c.get("kind") == "dbos_timer":
+            take(DT.check_cases([c["case"]]), "replay")
+        for d in payload.get("divergence") or []:
+            ctx = d.get("context") or {}
+            if isinstance(ctx, dict) and ctx.get("kind") == "dbos_timer":
+                take(DT.check_cases([ctx["case"]]), "replay")
+    take(DT.check_cases([c for _n, c in DT.CORPUS]), "corpus")
+    cases = [DT.gen_case(rng) for _ in range(n_cases)]
+    B = 200
+    for i in range(0, len(cases), B):
+        take(DT.check_cases(cases[i:i + B]), "generated")
+
+
 def run(env: Env) -> Outcome:
     out = Outcome()
     out.rule = ("generated idle workflows (1-5 external events + optional final, durations and send times on a grid around idle_timeout incl. +-1 ms, 1-2 workers, "
                 "memory/sqlite store, 1/3 with scheduler-controlled store suspension, 1/4 with work longer than idle_timeout and retries); "
-                "non-trivial = at least one release and one reload; distinct by (case, schedule)")
+                "non-trivial = at least one release and one reload; distinct by (case, schedule). DBOS timer stream: 1-3 runs, idle_timeout in {100,200,250} ms, "
+                "5-14 ops (idle 32%, tick 18%, resume 7%, other event 6%, wait timeout 5%, time steps on a grid around the timeouts incl. +-1 ms 32%), begin_release latency "
+                "in {0,15,60,130} ms and answer True 60%, TickIdleRelease / get_result latencies; non-trivial = at least one release attempt and one received tick")
     LP.run_malformed(out)
     LP.run_inprocess(env, out, "C36", env.budget(24, 2400), WITNESSES)
     LP.run_row_corr(env, out, env.budget(150, 20000), "C36")
     _dbos_never_released(out)
+    _row_witnesses(out)
     LP.run_dbos_gated(env, out, "C36", env.budget(40, 1500))
+    run_dbos_timer(env, out, env.budget(150, 6000))
     return out
